@@ -431,6 +431,8 @@ func (s *pfxScn) deliver(c, relay int, wire []byte, kinds [][]string) bool {
 	if err != nil {
 		return false
 	}
+	s.t.Pending(Ev{"c": c, "relay": relay, "wire": hex.EncodeToString(wire)})
+	defer s.t.Done()
 	t0 := time.Now().Unix()
 	var (
 		out  dhcpv6.DHCPv6
@@ -872,6 +874,11 @@ func runPrefixReplay(t *Trace, path string) error {
 			s, err = newPfxScn(t, pg, rand.New(rand.NewSource(1)))
 			if err != nil {
 				return err
+			}
+		case "crash":
+			// the process died while handling an input that never made it into the recording: hand it over again
+			if pend, ok := e["pending"].(map[string]interface{}); ok && s != nil {
+				s.resend(Ev(pend))
 			}
 		case "msg":
 			if s == nil {
